@@ -219,7 +219,13 @@ def gen(rng, i, tier):
     r = rng.random()
     if r < 0.45:
         kind, a, lim, why = invalid_case(rng)
-        return {"mode": "invalid", "kind": kind, "args": a, "limits": lim, "why": why}
+        case = {"mode": "invalid", "kind": kind, "args": a, "limits": lim, "why": why}
+        tabs = [z for (k, z) in TABLE_PARAMS if k == kind and isinstance(a.get(z), dict)]
+        if tabs and rng.random() < 0.4:
+            # a GOOD table on the same axes layout (2-D if the bad one is 2-D) to be accepted first through the same object
+            case["reuse_object"] = {z: good_table(rng, z, two_d=len(a[z].get("vi", [])) > 1 if isinstance(a[z].get("vi"), list) else None)
+                                    for z in tabs}
+        return case
     kind = rng.choice(KINDS)
     a = base_args(rng, kind)
     for (k, z) in TABLE_PARAMS:
@@ -281,7 +287,22 @@ def run(ctx, case):
     ns = loader.load()
     kind = case["kind"]
     if case["mode"] == "invalid":
-        st, r = H.call(S.make_comp, ns, _c("X", kind, case["args"], [], case.get("limits")))
+        if case.get("reuse_object"):
+            # the very dict object that now holds the unacceptable table was accepted before, with good contents, and
+            # then edited in place (a sweep over table values): every constructor call validates what it is given
+            args = copy.deepcopy(case["args"])
+            for z_, good in case["reuse_object"].items():
+                if isinstance(args.get(z_), dict):
+                    bad = args[z_]
+                    obj = copy.deepcopy(good)
+                    H.call(ns.KINDS[kind], "X0", **dict(args, **{z_: obj}))
+                    obj.clear()
+                    obj.update(bad)
+                    args[z_] = obj
+                    ctx.count("table_object", "reused after in-place edit")
+            st, r = H.call(ns.KINDS[kind], "X", **dict(args, **({"limits": case["limits"]} if case.get("limits") is not None else {})))
+        else:
+            st, r = H.call(S.make_comp, ns, _c("X", kind, case["args"], [], case.get("limits")))
         ok = st == "raise" and isinstance(r, ValueError)
         ctx.check("reject.valueerror", ok, {"kind": kind, "args": case["args"], "limits": case.get("limits"),
                                             "why": case["why"], "outcome": "accepted" if st == "ok" else H.exc_sig(r)})
